@@ -123,6 +123,11 @@ impl McGroupStatusAnsCreator {
     }
 
     pub fn push(&mut self, group_id: u8, mc_addr: McAddr) -> Result<&mut Self, Error> {
+        // AnsGroupMask has one bit per group; a larger id would spill into
+        // NbTotalGroups/RFU, and the buffer holds at most MAX_GROUPS items
+        if group_id as usize >= MAX_GROUPS || self.items >= MAX_GROUPS {
+            return Err(Error::InvalidIndex);
+        }
         // update bitmask in status byte
         let bm = 1 << group_id;
         self.data[1] |= bm;
